@@ -1387,6 +1387,12 @@ def _delete_col(tr, b, node):
     return tr.bind_value("deleteCol %s %s" % (paren(k, 100), paren(r, 100)), MAT)
 
 
+@idiom("np.max(_A)", "npMax A", "the largest entry of a 2-D array (`ValueError` when it has no entries)")
+def _npmax(tr, b, node):
+    a = _arg(tr, b["_A"], MAT)
+    return tr.bind_value("npMax %s" % paren(a, 100), N)
+
+
 @idiom("np.imag(_U)", "U.map (·.2)", "imaginary parts of a vector of complex numbers")
 def _imag(tr, b, node):
     u = _arg(tr, b["_U"], L(CPX))
@@ -1463,15 +1469,22 @@ TARGETS.append(dict(
     params=[("d", N), ("K", MAT), ("DY", MAT), ("max_diam", N)], ret=B, skeleton="...",
     obligations=OBLIGATIONS["confirm_lb_using_bounded_curvature"]))
 
+# ---- find_lb  ->  findLb exactMul exactMul
+TARGETS.append(dict(
+    func="find_lb", lean="find_lb", params=[("DX", MAT), ("DY", MAT)], ret=N, skeleton="...", while_bounds=["d"],
+    obligations=OBLIGATIONS.get("find_lb", [])))
+
 
 BINDINGS = {KEY: [
     ('AttributeError', 'builtin'),
     ('StopIteration', 'builtin'),
+    ('abs', 'builtin'),
     ('check_assignment_feasibility', 'def check_assignment_feasibility'),
     ('confirm_lb_using_bounded_curvature', 'def confirm_lb_using_bounded_curvature'),
     ('confirm_lb_using_bounded_curvature_row', 'def confirm_lb_using_bounded_curvature_row'),
     ('determine_optimal_int_type', 'def determine_optimal_int_type'),
     ('find_largest_size_bounded_curvature', 'def find_largest_size_bounded_curvature'),
+    ('find_lb', 'def find_lb'),
     ('find_unique_max_distributions', 'def find_unique_max_distributions'),
     ('int', 'builtin'),
     ('len', 'builtin'),
@@ -1491,6 +1504,7 @@ SIGNATURES = {
     'find_unique_max_distributions': 'def find_unique_max_distributions(distributions)',
     'confirm_lb_using_bounded_curvature_row': 'def confirm_lb_using_bounded_curvature_row(d, K, DY, max_diam)',
     'confirm_lb_using_bounded_curvature': 'def confirm_lb_using_bounded_curvature(d, K, DY, max_diam)',
+    'find_lb': 'def find_lb(DX, DY)',
 }
 
 
